@@ -29,6 +29,12 @@ def _on(e, obj):
     return f[2] if isinstance(f, tuple) and f[0] == "attr" and f[1] == obj else None
 
 
+def _depth_of_parent(gd_event, ev, leaf):
+    """the node whose depth is asked is leaf2node[leaf] read BEFORE the dictionary is updated for the children"""
+    a = gd_event[3]
+    return len(a) == 1 and isinstance(a[0], tuple) and a[0][0] == "item" and a[0][1][:1] == ("dict",) and a[0][2] == leaf
+
+
 def _opt_default(t, attr, value_when_none=False):
     """t is `attr if attr is not None else <default>` in any of its spellings (conditions are canonical: ("ite", attr is None, default, attr));
     returns the default term, or None when t has another form.  With value_when_none the historical operand order of the depth test
@@ -76,31 +82,49 @@ def obligations():
             continue
         g = guard[0][2]
         L1 = guard[0][1]
-        okg = g[0] == "boolop" and g[1] == "And" and len(g[2]) == 3
+        # The loop goes on while (i) the last gain was positive, (ii) the leaf budget is not exhausted and (iii) leaves remain to explore.
+        # (i) is written either as a conjunct of the guard on the gain of the previous iteration (initially +inf), or as a `break`
+        # right after the search when the gain just found is not positive -- the same stopping rule; (iii) in any spelling of
+        # "the queue is not empty" (len(q) != 0, len(q) > 0, q).
+        conj = list(g[2]) if g[0] == "boolop" and g[1] == "And" else [g]
+        gain_c = [c_ for c_ in conj if c_[:2] == ("cmp", ("Gt",)) and c_[2][0][:1] == ("loopvar",) and c_[2][1] == fx.C(0)]
+        leaf_c = [c_ for c_ in conj if c_[:2] == ("cmp", ("Lt",)) and c_[2][0][:1] == ("loopvar",) and c_ not in gain_c]
+        queue = None
+        rest = [c_ for c_ in conj if c_ not in gain_c and c_ not in leaf_c]
+        if len(rest) == 1:
+            c_ = rest[0]
+            if c_[0] == "cmp" and c_[1] in (("NotEq",), ("Gt",)) and c_[2][0][:1] == ("callres",) and c_[2][0][2] == "len" and c_[2][1] == fx.C(0):
+                queue = c_[2][0][3][0]
+            elif c_[0] in ("loopvar", "list", "ite"):
+                queue = c_
+        gain_lv = gain_c[0][2][0] if len(gain_c) == 1 else None          # None: the `break` style
+        okg = len(leaf_c) == 1 and queue is not None and len(gain_c) <= 1 and len(conj) == len(gain_c) + 2
+        if okg and gain_lv is None:
+            # break style: on every path where the gain just found is not positive the body breaks out of the loop at once
+            brk = [e for e in ev if e[0] == "break"]
+            okg = any(c_[:2] == ("cmp", ("Gt",)) and c_[2][1] == fx.C(0) for c_, _b in st.pc) and \
+                all(bool(brk) for c_, b_ in st.pc if c_[:2] == ("cmp", ("Gt",)) and c_[2][1] == fx.C(0) and b_ is False)
         if okg:
-            a, b, c = g[2]
-            okg = (a[:2] == ("cmp", ("Gt",)) and a[2][0][:1] == ("loopvar",) and a[2][1] == fx.C(0)
-                   and b[:2] == ("cmp", ("Lt",)) and b[2][0][:1] == ("loopvar",) and b[2][0] != a[2][0]
-                   and c[0] == "cmp" and c[1] in (("NotEq",), ("Gt",)) and c[2][0][:1] == ("callres",) and c[2][0][2] == "len" and c[2][1] == fx.C(0))
-            if okg:
-                ml = b[2][1]
-                # the leaf budget is the user's max_leaves, and the NUMBER OF SAMPLES when none is given (nothing else caps the tree)
-                dflt = fx.strip(_opt_default(ml, _attr(SELF, "max_leaves")))
-                is_n = (isinstance(dflt, tuple) and ((dflt[0] == "item" and dflt[1][:1] == ("attr",) and dflt[1][2] == "shape" and dflt[2] == fx.C(0))
-                                                      or (dflt[:1] == ("callres",) and dflt[2] == "len" and len(dflt[3]) == 1)))
-                okg = dflt is not None and is_n
-                queue = c[2][0][3][0]
+            nlv_guard = leaf_c[0][2][0]
+            ml = leaf_c[0][2][1]
+            # the leaf budget is the user's max_leaves, and the NUMBER OF SAMPLES when none is given (nothing else caps the tree)
+            dflt = fx.strip(_opt_default(ml, _attr(SELF, "max_leaves")))
+            is_n = (isinstance(dflt, tuple) and ((dflt[0] == "item" and dflt[1][:1] == ("attr",) and dflt[1][2] == "shape" and dflt[2] == fx.C(0))
+                                                  or (dflt[:1] == ("callres",) and dflt[2] == "len" and len(dflt[3]) == 1)))
+            okg = dflt is not None and is_n
         ob("loop guard: last_gain > 0 and n_leaves < max_leaves (n when None) and the queue is not empty", okg, {"guard": fx.show(g)[:300]})
         if not okg:
             continue
         # initial values
-        lg0 = g[2][0][2][0][3]
-        ob("initially last_gain = +inf, one leaf, one cluster", lg0 == _attr(("global", "np"), "inf") and g[2][1][2][0][3] == fx.C(1))
+        lg0 = gain_lv[3] if gain_lv is not None else _attr(("global", "np"), "inf")
+        ob("initially last_gain = +inf, one leaf, one cluster", lg0 == _attr(("global", "np"), "inf") and nlv_guard[3] == fx.C(1))
         # root queue entry guarded by min_samples_split
         q0 = queue[3] if queue[0] == "loopvar" else queue
-        root_guarded = (isinstance(q0, tuple) and q0[0] == "ite" and q0[1][:2] == ("cmp", ("GtE",))
-                        and q0[1][2][1] == _attr(SELF, "min_samples_split") and q0[2][0] == "list" and q0[2][1] == (fx.C(0),)
-                        and q0[3][0] == "list" and q0[3][1] == ())
+        # [0] if n >= min_samples_split else []   ==   [] if n < min_samples_split else [0]
+        yes, no = (q0[2], q0[3]) if isinstance(q0, tuple) and q0[0] == "ite" and q0[1][:2] == ("cmp", ("GtE",)) else \
+            ((q0[3], q0[2]) if isinstance(q0, tuple) and q0[0] == "ite" and q0[1][:2] == ("cmp", ("Lt",)) else (None, None))
+        root_guarded = (yes is not None and q0[1][2][1] == _attr(SELF, "min_samples_split") and yes[0] == "list" and yes[1] == (fx.C(0),)
+                        and no[0] == "list" and no[1] == ())
         if root_guarded:
             nterm = q0[1][2][0]      # number of samples: n from X.shape, or len(X)
             root_guarded = "shape" in fx.show(nterm) or "len(" in fx.show(nterm)
@@ -129,8 +153,8 @@ def obligations():
         ok_args = (len(a) == 10 and kern and a[0] == ("callres", kern[0][1], "self._compute_kernel", kern[0][3], kern[0][4])
                    and kern[0][3] == (Xv, ("var", "y")) and Xv[:1] == ("callres",) and Xv[2] == "validate_data"
                    and a[2][:1] == ("callres",) and a[2][2] in ("np.array", "np.asarray")
-                   and a[5][:1] == ("loopvar",) and a[5] not in (g[2][0][2][0], g[2][1][2][0]) and a[6] == _attr(SELF, "max_clusters")
-                   and a[7] == g[2][1][2][0] and a[8] == _attr(SELF, "min_samples_leaf"))      # a[7]: the leaf counter of the loop guard
+                   and a[5][:1] == ("loopvar",) and a[5] not in (gain_lv, nlv_guard) and a[6] == _attr(SELF, "max_clusters")
+                   and a[7] == nlv_guard and a[8] == _attr(SELF, "min_samples_leaf"))      # a[7]: the leaf counter of the loop guard
         ob("find_best_split(kernel(X, y), X, array(queue), Y, Z, n_clusters, max_clusters, n_leaves, min_samples_leaf, features)", ok_args)
         # the candidate features handed to the search are exactly the drawn subset (cast to intp), nothing filtered out of it
         feat = a[9] if len(a) == 10 else None
@@ -145,9 +169,14 @@ def obligations():
             continue
         Yt, Zt, nlv, ncv = a[3], a[4], a[7], a[5]
         # the gain tested by the loop guard is the gain of the split found in this iteration
-        gv_out = st.env.get(g[2][0][2][0][2])
-        ob("the gain tested by the loop guard is the gain of the split just found", gv_out is not None and gv_out[:1] == ("loopout",) and gv_out[3] == _attr(bs, "gain"),
-           {"got": fx.show(gv_out)[:200] if gv_out is not None else None})
+        if gain_lv is not None:
+            gv_out = st.env.get(gain_lv[2])
+            ob("the gain tested by the loop guard is the gain of the split just found", gv_out is not None and gv_out[:1] == ("loopout",) and gv_out[3] == _attr(bs, "gain"),
+               {"got": fx.show(gv_out)[:200] if gv_out is not None else None})
+        else:
+            # break style: the test is made on the gain attribute of the split just returned
+            ob("the gain tested by the loop guard is the gain of the split just found",
+               any(c_ == ("cmp", ("Gt",), (_attr(bs, "gain"), fx.C(0))) for c_, _b in st.pc), {"style": "break right after the search"})
         gain_pos = None
         for c_, b_ in st.pc:
             if c_ == ("cmp", ("Gt",), (_attr(bs, "gain"), fx.C(0))):
@@ -214,57 +243,59 @@ def obligations():
         # enqueue sites
         rm = [e for e in calls if _on(e, queue) == "remove"]
         ob("the split leaf leaves the queue", len(rm) == 1 and rm[0][3] == (leaf,))
+        # Semantic form (engine/fxz3.py, all integers): on this path the left child -- which keeps the leaf id -- is appended to the
+        # queue iff depth(parent) + 1 < max_depth (n when None) and len(left) >= min_samples_split; the right child -- leaf n_leaves --
+        # iff the same depth test and len(right) >= min_samples_split.  Nested ifs, one merged condition or a hoisted flag are alike.
+        from engine import fxz3
         gd = [e for e in calls if e[2] == "self.tree_.get_depth"]
-        depth_ok = None
-        if gd:
-            pd = ("callres", gd[0][1], gd[0][2], gd[0][3], gd[0][4])
-            md = None
-            for c_, b_ in st.pc:
-                if c_[:2] == ("cmp", ("Lt",)) and c_[2][0] == ("binop", "Add", pd, fx.C(1)):
-                    depth_ok, md = b_, c_[2][1]
-            okd = md is not None and _opt_default(md, _attr(SELF, "max_depth"), value_when_none=True) is not None
-            ob("depth test: depth(parent) + 1 < max_depth (n when None)", okd)
         apps = [e for e in calls if _on(e, queue) == "append"]
-        size_ok = {}
-        for c_, b_ in st.pc:
-            if c_[:2] == ("cmp", ("GtE",)) and c_[2][1] == _attr(SELF, "min_samples_split") and c_[2][0][:1] == ("callres",) and c_[2][0][2] == "len":
-                who = c_[2][0][3][0]
-                size_ok["left" if who == left else ("right" if who == right else "?")] = b_
-        want = []
-        if depth_ok:
-            if size_ok.get("left"):
-                want.append((leaf,))
-            if size_ok.get("right"):
-                want.append((nlv,))
         qname = "a child is queued iff depth allows and ITS OWN size >= min_samples_split (left child keeps the leaf id, right child gets n_leaves)"
         other_q = [e[2] for e in calls if _on(e, queue) not in (None, "append", "remove")]
         other_q += [fx.show(e[2])[:60] for e in ev if e[0] == "mutate" and e[1] == queue]
-        recognised = depth_ok is not None and not other_q and (not depth_ok or set(size_ok) == {"left", "right"})
-        if not recognised:
-            # the queue is updated in a form this contract does not recognise: undecided here (the bounded native audit decides)
+        okd = len(gd) == 1
+        ob("depth test: depth(parent) + 1 < max_depth (n when None)", okd and _depth_of_parent(gd[0], ev, leaf), {"get_depth calls": len(gd)})
+        if not okd or other_q or any(len(e[3]) != 1 for e in apps):
             agg.setdefault("Kauri.fit:" + qname, Ob("Kauri.fit:" + qname, UNDECIDED, "fx-dataflow", "P",
-                                                     {"why": "queue update not in the recognised form", "calls": other_q, "size tests": list(size_ok)}, fn=fn))
+                                                     {"why": "queue update not in the recognised form", "calls": other_q}, fn=fn))
             if agg["Kauri.fit:" + qname].status == PROVED:
                 agg["Kauri.fit:" + qname] = Ob("Kauri.fit:" + qname, UNDECIDED, "fx-dataflow", "P", {"why": "queue update not in the recognised form"}, fn=fn)
         else:
-            ob(qname, [e[3] for e in apps] == want and "?" not in size_ok,
-               {"appended": [fx.show(e[3][0])[:80] for e in apps], "size tests": {k: v for k, v in size_ok.items()}})
+            pd = ("callres", gd[0][1], gd[0][2], gd[0][3], gd[0][4])
+            nrows = ("item", ("attr", Xv, "shape"), fx.C(0))
+            max_depth = ("ite", ("cmp", ("Is",), (_attr(SELF, "max_depth"), fx.C(None))), nrows, _attr(SELF, "max_depth"))
+            depth_ok = ("cmp", ("Lt",), (("binop", "Add", pd, fx.C(1)), max_depth))
+            mss = _attr(SELF, "min_samples_split")
+            tr = fxz3.Tr()
+            verdicts, dets = [], {}
+            appended = [e[3][0] for e in apps]
+            for who, child, members in (("left", leaf, left), ("right", nlv, right)):
+                cond = ("boolop", "And", (depth_ok, ("cmp", ("GtE",), (("callres", None, "len", (members,), ()), mss))))
+                goal = tr.boo(cond) if appended.count(child) == 1 else (fxz3.z3.Not(tr.boo(cond)) if appended.count(child) == 0 else fxz3.z3.BoolVal(False))
+                stt, dd = fxz3.entails(tr, st.pc, goal)
+                verdicts.append(stt)
+                dets[who] = {"appended": appended.count(child), **(dd or {})}
+            extra = [fx.show(a)[:60] for a in appended if a not in (leaf, nlv)]
+            stq = REFUTED if (REFUTED in verdicts or extra) else (UNDECIDED if UNDECIDED in verdicts else PROVED)
+            cur = agg.get("Kauri.fit:" + qname)
+            if cur is None or (stq != PROVED and cur.status == PROVED):
+                agg["Kauri.fit:" + qname] = Ob("Kauri.fit:" + qname, stq, "fx-dataflow+z3", "P", dict(dets, other_appends=extra), fn=fn)
         # counters
         nl_out = st.env.get(nlv[2])
         ob("n_leaves += 1 per applied split", nl_out is not None and nl_out[:1] == ("loopout",) and nl_out[3] == ("binop", "Add", nlv, fx.C(1)))
         nc_out = st.env.get(ncv[2])
-        both = None
-        either = None
         lt, rt = _attr(bs, "left_target"), _attr(bs, "right_target")
-        for c_, b_ in st.pc:
-            if c_ == ("boolop", "And", (("cmp", ("GtE",), (lt, ncv)), ("cmp", ("GtE",), (rt, ncv)))):
-                both = b_
-            if c_ == ("boolop", "Or", (("cmp", ("GtE",), (lt, ncv)), ("cmp", ("GtE",), (rt, ncv)))):
-                either = b_
-        inc = 2 if both else (1 if either else 0)
-        wantc = ("binop", "Add", ncv, fx.C(inc)) if inc else ncv
-        ob("n_clusters += 2 / 1 / 0 when both / one / no target is a new cluster", both is not None and nc_out is not None and nc_out[:1] == ("loopout",) and nc_out[3] == wantc,
-           {"got": fx.show(nc_out)[:200]})
+        # semantic form: n_clusters_out == n_clusters + [left_target >= n_clusters] + [right_target >= n_clusters] for all integers, on this path
+        # (an if / elif chain, a conditional increment and int(a) + int(b) are the same function)
+        cname = "n_clusters += 2 / 1 / 0 when both / one / no target is a new cluster"
+        if nc_out is None or nc_out[:1] != ("loopout",):
+            ob(cname, False, {"got": fx.show(nc_out)[:200]})
+        else:
+            tr2 = fxz3.Tr()
+            want_n = tr2.num(ncv) + fxz3.z3.If(tr2.num(lt) >= tr2.num(ncv), 1, 0) + fxz3.z3.If(tr2.num(rt) >= tr2.num(ncv), 1, 0)
+            stc, dd = fxz3.entails(tr2, st.pc, tr2.num(nc_out[3]) == want_n)
+            cur = agg.get("Kauri.fit:" + cname)
+            if cur is None or (stc != PROVED and cur.status == PROVED):
+                agg["Kauri.fit:" + cname] = Ob("Kauri.fit:" + cname, stc, "fx-dataflow+z3", "P", dict(dd or {}, got=fx.show(nc_out)[:200]), fn=fn)
         # result
         lab = [e for e in ev if e[0] == "store" and e[2] == "labels_"]
         okl = bool(lab) and lab[-1][3][:1] == ("callres",) and lab[-1][3][2].endswith(".argmax") and lab[-1][3][3] == (fx.C(0),)
